@@ -123,7 +123,7 @@ func specHexDigit(c byte) bool {
 // documentation.) The rest of the string grammar - which characters may appear unescaped, the
 // two-character escapes, UTF-8 validity - is not under contract.
 //
-// @ props C21
+// @ props C21 C26
 // @ mode int
 // @ pure utf16.DecodeRune utf16.IsSurrogate
 // @ site in = in[6:]: len(in) >= 6 && specHexDigit(in[2]) && specHexDigit(in[3]) && specHexDigit(in[4]) && specHexDigit(in[5])
